@@ -156,3 +156,14 @@ func CanaryCheck(b []byte, seed byte) int {
 	}
 	return -1
 }
+
+// CanaryCheckRange checks b[lo:hi] against the pattern written by CanaryFill(b, seed);
+// it returns the first differing index relative to lo, or -1.
+func CanaryCheckRange(b []byte, seed byte, lo, hi int) int {
+	for i := lo; i < hi; i++ {
+		if b[i] != seed^byte(i*131>>3)^0x5A {
+			return i - lo
+		}
+	}
+	return -1
+}
